@@ -10,11 +10,13 @@ pub mod c07;
 pub mod c08;
 pub mod c09;
 pub mod c10;
+pub mod c11;
 pub mod c12;
 pub mod c13;
 pub mod c14;
 pub mod c15;
 pub mod c16;
+pub mod c17;
 
 pub fn all() -> Vec<(&'static str, fn() -> PropertyDef)> {
     vec![
@@ -28,10 +30,12 @@ pub fn all() -> Vec<(&'static str, fn() -> PropertyDef)> {
         ("C08", c08::def as fn() -> PropertyDef),
         ("C09", c09::def as fn() -> PropertyDef),
         ("C10", c10::def as fn() -> PropertyDef),
+        ("C11", c11::def as fn() -> PropertyDef),
         ("C12", c12::def as fn() -> PropertyDef),
         ("C13", c13::def as fn() -> PropertyDef),
         ("C14", c14::def as fn() -> PropertyDef),
         ("C15", c15::def as fn() -> PropertyDef),
         ("C16", c16::def as fn() -> PropertyDef),
+        ("C17", c17::def as fn() -> PropertyDef),
     ]
 }
